@@ -97,7 +97,7 @@ const BAD_SEQS: &[&[u8]] = &[
 /// One hostile document. `explicit work` of every shape is bounded (<= 5e4 element x iteration).
 pub fn hostile_doc(rng: &mut Rng, env: &WorkerEnv) -> (String, Vec<u8>) {
     let d = *rng.pick(DEPTHS);
-    match rng.below(32) {
+    match rng.below(35) {
         0 => (
             "expr-paren-depth".into(),
             format!("<svg><rect wh=\"{{{{{}}}}}\"/></svg>", nest("(", ")", d, "1")).into_bytes(),
@@ -345,6 +345,56 @@ pub fn hostile_doc(rng: &mut Rng, env: &WorkerEnv) -> (String, Vec<u8>) {
             }
             s.push_str(&format!("<rect id=\"c{n}\" wh=\"1\"/></svg>"));
             ("fwd-chain".into(), s.into_bytes())
+        }
+        29 => {
+            // clip-path reference cycles and chains
+            let s = match rng.below(5) {
+                0 => "<svg><clipPath id=\"c\" clip-path=\"url(#c)\"><rect wh=\"10\"/></clipPath><rect wh=\"5\" clip-path=\"url(#c)\"/></svg>".to_string(),
+                1 => "<svg><clipPath id=\"c1\" clip-path=\"url(#c2)\"><rect wh=\"10\"/></clipPath><clipPath id=\"c2\" clip-path=\"url(#c1)\"><rect wh=\"8\"/></clipPath><rect id=\"r\" wh=\"5\" clip-path=\"url(#c1)\"/><rect xy=\"#r|h\" wh=\"1\"/></svg>".to_string(),
+                2 => {
+                    let n = d.min(3000);
+                    let mut s = String::from("<svg><clipPath id=\"k0\"><rect wh=\"10\"/></clipPath>");
+                    for k in 1..=n {
+                        s.push_str(&format!("<clipPath id=\"k{k}\" clip-path=\"url(#k{})\"><rect wh=\"9\"/></clipPath>", k - 1));
+                    }
+                    s.push_str(&format!("<rect id=\"r\" wh=\"5\" clip-path=\"url(#k{n})\"/><rect xy=\"#r|h\" wh=\"1\"/></svg>"));
+                    s
+                }
+                3 => "<svg><g id=\"g\" clip-path=\"url(#g)\"><rect wh=\"4\"/></g><rect xy=\"#g|h\" wh=\"1\"/></svg>".to_string(),
+                _ => "<svg><rect id=\"r\" wh=\"5\" clip-path=\"url(#nope)\"/><rect wh=\"5\" clip-path=\"url(\"/><rect xy=\"#r|v\" wh=\"1\" clip-path=\"none\"/></svg>".to_string(),
+            };
+            ("clip-path-refs".into(), s.into_bytes())
+        }
+        30 => {
+            // values that grow through recursion / iteration without passing a <var>
+            let s = match rng.below(5) {
+                0 => "<svg><specs><g id=\"a\"><reuse href=\"#a\" t=\"$t $t\"/></g></specs><reuse href=\"#a\" t=\"x\"/></svg>".to_string(),
+                1 => "<svg><specs><g id=\"a\"><rect wh=\"1\" text=\"$t\"/><reuse href=\"#a\" t=\"${t}${t}${t}\"/></g></specs><reuse href=\"#a\" t=\"ab\"/></svg>".to_string(),
+                2 => "<svg><var v=\"ab\"/><loop count=\"60\"><g t=\"$v$v\"><var v=\"$t\"/></g></loop><rect wh=\"1\" text=\"$v\"/></svg>".to_string(),
+                3 => "<svg><specs><g id=\"a\"><reuse href=\"#a\" class=\"c$n\" n=\"{{$n + 1}}\" style=\"$style;x:$n\"/></g></specs><reuse href=\"#a\" n=\"0\" style=\"a:b\"/></svg>".to_string(),
+                _ => "<svg><for data=\"1, 2, 3, 4, 5, 6, 7, 8, 9, 10, 11, 12, 13, 14, 15, 16, 17, 18, 19, 20, 21, 22, 23, 24, 25, 26, 27, 28, 29, 30\" var=\"i\"><var d=\"$d, $d\"/></for><for data=\"$d\" var=\"j\"><rect wh=\"1\"/></for></svg>".to_string(),
+            };
+            ("value-growth".into(), s.into_bytes())
+        }
+        31 => {
+            // an unresolvable reference at the bottom of n nested groups, one good sibling
+            // per level: every level's work-list retries its failing child
+            let n = *rng.pick(&[6usize, 12, 18, 24, 40, 70]);
+            let kind = rng.below(3);
+            let mut s = String::from("<svg>");
+            for _ in 0..n {
+                s.push_str(match kind {
+                    0 => "<g><rect wh=\"1\"/>",
+                    1 => "<g><rect wh=\"1\"/><circle r=\"1\"/>",
+                    _ => "<a><text xy=\"0 0\">t</text>",
+                });
+            }
+            s.push_str("<rect xy=\"#nope|h\" wh=\"1\"/>");
+            for _ in 0..n {
+                s.push_str(if kind == 2 { "</a>" } else { "</g>" });
+            }
+            s.push_str("</svg>");
+            ("nested-unresolvable".into(), s.into_bytes())
         }
         28 => {
             let (dd, why) = docgen::failing_doc(rng);
